@@ -11,7 +11,7 @@ CASES = [("index", n) for n in ("s232", "s31", "s4", "s1231", "s25")] + [("pairs
 
 
 KIND_NAMES = ["fixed", "hybrid", "dynamic", "nested_arr", "nested_vec"] + [f"{s}_{b}" for s in ("cs", "fs", "hs", "ds", "ls") for b in ("fb", "hb", "db")] + ["dtype"]
-KIND_SHAPES = {0: [2, 3], 1: [1, 2, 3], 2: [1, 2, 1, 3], 3: [2, 1, 3, 1], 4: [6], 5: [2, 2, 2], 6: [3, 1]}
+KIND_SHAPES = {0: [2, 3], 1: [1, 2, 3], 2: [1, 2, 1, 3], 3: [2, 1, 3, 1], 4: [6], 5: [2, 2, 2], 6: [3, 1], 7: [3, 2], 8: [4, 1, 2]}
 
 
 def cast_nested_vec(case):
